@@ -830,6 +830,96 @@ def sink_tail_into_branches(fn: ast.FunctionDef, ref_fn: dict) -> None:
             return sink_tail_into_branches(fn, ref_fn)
 
 
+def sink_use_into_branches(fn: ast.FunctionDef, ref_fn: dict, known) -> None:
+    """`if c: ...; t = A` / `else: ...; t = B` followed by one simple statement S that reads the fresh local t and that the
+    reference does not have in that form: S goes to the end of both branches (where t is then inlined)."""
+    ref_lines = {l.strip() for l in ref_fn.get("src", "").splitlines()}
+    if not ref_lines:
+        return
+    for _owner, _fld, blk in blocks_of(fn):
+        for i, st in enumerate(blk):
+            if not (isinstance(st, ast.If) and st.orelse and i + 1 < len(blk)):
+                continue
+            nxt = blk[i + 1]
+            if not isinstance(nxt, (ast.Assign, ast.Expr, ast.AugAssign)) or _u(nxt).splitlines()[0].strip() in ref_lines:
+                continue
+            leaves = []
+
+            def collect(node):
+                leaves.append(node.body)
+                if len(node.orelse) == 1 and isinstance(node.orelse[0], ast.If):
+                    collect(node.orelse[0])
+                elif node.orelse:
+                    leaves.append(node.orelse)
+                else:
+                    leaves.append(None)
+            collect(st)
+            if None in leaves or any(always_exits(b) for b in leaves):
+                continue
+            lasts = [b[-1] for b in leaves]
+            if not all(isinstance(l, ast.Assign) and len(l.targets) == 1 and isinstance(l.targets[0], ast.Name) for l in lasts):
+                continue
+            t = lasts[0].targets[0].id
+            if t in known or any(l.targets[0].id != t for l in lasts):
+                continue
+            loads = [x for x in ast.walk(fn) if isinstance(x, ast.Name) and x.id == t and isinstance(x.ctx, ast.Load)]
+            if not loads or not all(any(x is y for y in ast.walk(nxt)) for x in loads):
+                continue
+            # the tests of the chain are evaluated before S in both forms; S must not be split from what follows by them
+            for b in leaves:
+                b.append(copy.deepcopy(nxt))
+            del blk[i + 1]
+            ast.fix_missing_locations(fn)
+            return sink_use_into_branches(fn, ref_fn, known)
+
+
+def enumerate_to_counter(fn: ast.FunctionDef, ref_fn: dict, known) -> None:
+    """`for i, v in enumerate(it, start=k): body`  ->  `i = k` / `for v in it: body; i += 1` when the reference iterates over
+    `it` directly; the body must not `continue` or assign i, and i must not be read after the loop."""
+    ref_lines = {l.strip() for l in ref_fn.get("src", "").splitlines()}
+    for _owner, _fld, blk in blocks_of(fn):
+        for i, st in enumerate(blk):
+            if not (isinstance(st, ast.For) and not st.orelse and isinstance(st.iter, ast.Call) and _u(st.iter.func) == "enumerate" and st.iter.args
+                    and isinstance(st.target, ast.Tuple) and len(st.target.elts) == 2 and isinstance(st.target.elts[0], ast.Name)):
+                continue
+            it = st.iter.args[0]
+            start = st.iter.args[1] if len(st.iter.args) == 2 else next((k.value for k in st.iter.keywords if k.arg == "start"), ast.Constant(value=0))
+            if not isinstance(start, ast.Constant) or len(st.iter.args) + len(st.iter.keywords) > 2:
+                continue
+            if f"for {_u(st.target.elts[1])} in {_u(it)}:" not in ref_lines and not any(l.startswith("for ") and l.endswith(f" in {_u(it)}:") for l in ref_lines):
+                continue
+            cnt = st.target.elts[0].id
+            if cnt in known and False:
+                continue
+            inner = [x for b in st.body for x in ast.walk(b)]
+            own_continue = False
+
+            def has_continue(stmts):
+                for s_ in stmts:
+                    if isinstance(s_, ast.Continue):
+                        return True
+                    if isinstance(s_, (ast.For, ast.While, ast.FunctionDef)):
+                        continue
+                    for fld in ("body", "orelse", "finalbody"):
+                        if has_continue(getattr(s_, fld, []) or []):
+                            return True
+                    for h in getattr(s_, "handlers", []) or []:
+                        if has_continue(h.body):
+                            return True
+                return False
+            if has_continue(st.body) or any(isinstance(x, ast.Name) and x.id == cnt and isinstance(x.ctx, ast.Store) for x in inner):
+                continue
+            after = [x for later in blk[i + 1:] for x in ast.walk(later)]
+            if any(isinstance(x, ast.Name) and x.id == cnt and isinstance(x.ctx, ast.Load) for x in after):
+                continue
+            st.target = st.target.elts[1]
+            st.iter = it
+            st.body.append(ast.AugAssign(target=ast.Name(id=cnt, ctx=ast.Store()), op=ast.Add(), value=ast.Constant(value=1)))
+            blk.insert(i, ast.copy_location(ast.Assign(targets=[ast.Name(id=cnt, ctx=ast.Store())], value=start), st))
+            ast.fix_missing_locations(fn)
+            return enumerate_to_counter(fn, ref_fn, known)
+
+
 def hoist_common_tail(fn: ast.FunctionDef, ref_fn: dict) -> None:
     """`if c: A; T else: B; T`  ->  `if c: A else: B` + T, for a statement T that the reference function has fewer times than
     the current one (tail duplication undone).  Falling off the end of either branch reaches T in both forms."""
@@ -855,7 +945,7 @@ def hoist_common_tail(fn: ast.FunctionDef, ref_fn: dict) -> None:
                 if isinstance(a, (ast.If, ast.For, ast.While, ast.Try, ast.With, ast.FunctionDef, ast.ClassDef, ast.Pass)) or _u(a) != _u(b):
                     continue
                 line = _u(a).splitlines()[0].strip()
-                if cur_lines.count(line) <= ref_lines.count(line):
+                if cur_lines.count(line) <= ref_lines.count(line) or ref_lines.count(line) == 0:
                     continue
                 if always_exits([a]) and blk[i + 1:]:
                     continue                    # both branches leave: what follows is dead in either form, leave it
@@ -988,6 +1078,11 @@ def normalise_expression_forms(fn: ast.FunctionDef, ref_fn: dict) -> None:
     `x = [e for v in it]`, chosen so that the function has the form the reference function has."""
     stmt_keys = set(ref_fn.get("stmt_tests", []))
     expr_keys = set(ref_fn.get("ifexp_tests", []))
+    # a conditional expression whose test the reference has the other way round
+    for ie in [x for x in ast.walk(fn) if isinstance(x, ast.IfExp)]:
+        k, nk = _key(ie.test), _key(negate(ie.test))
+        if k not in expr_keys and nk in expr_keys:
+            ie.test, ie.body, ie.orelse = negate(ie.test), ie.orelse, ie.body
     for _round in range(4):
         changed = False
         for owner, fld, blk in blocks_of(fn):
@@ -1047,6 +1142,23 @@ def normalise_expression_forms(fn: ast.FunctionDef, ref_fn: dict) -> None:
                                 break
                         if changed:
                             break
+                # x = next((e for v in it if c), default)  ->  for v in it: if c: x = e; break / else: x = default
+                if isinstance(st, ast.Assign) and len(st.targets) == 1 and isinstance(st.value, ast.Call) and _u(st.value.func) == "next" and len(st.value.args) == 2 \
+                        and not st.value.keywords and isinstance(st.value.args[0], ast.GeneratorExp) and len(st.value.args[0].generators) == 1 \
+                        and _is_literal(st.value.args[1]) and not st.value.args[0].generators[0].is_async:
+                    ge = st.value.args[0]
+                    g = ge.generators[0]
+                    if f"for {_u(g.target)} in {_u(g.iter)}:" in ref_lines or any(l.startswith("for ") and l.endswith(f" in {_u(g.iter)}:") for l in ref_lines):
+                        import copy as _copy
+                        inner = [ast.Assign(targets=[st.targets[0]], value=ge.elt), ast.Break()]
+                        body = inner
+                        for cnd in reversed(g.ifs):
+                            body = [ast.If(test=cnd, body=body, orelse=[])]
+                        loop = ast.For(target=g.target, iter=g.iter, body=body, orelse=[ast.Assign(targets=[_copy.deepcopy(st.targets[0])], value=st.value.args[1])])
+                        blk[i] = ast.copy_location(loop, st)
+                        ast.fix_missing_locations(loop)
+                        changed = True
+                        break
                 # conditional-expression assignment where the reference has an if statement, and the reverse
                 if isinstance(st, ast.Assign) and len(st.targets) == 1 and isinstance(st.value, ast.IfExp):
                     k, nk = _key(st.value.test), _key(negate(st.value.test))
